@@ -203,7 +203,18 @@ def angvel(chk, prog):
             tol = ("tol",) + tuple(getattr(c, "tol", None) or (1e-5, 1e-8))
             gates.append((str(c.lhs)[:40], str(c.rhs)[:40], tol[1], tol[2]))
             return False
-        return False if c.op in ("<=", "<") else None
+        if c.op in ("<=", "<", ">", ">="):
+            # a comparison of a computed quantity with a small literal is a motion threshold: recorded, and answered as for generic (not small) motion
+            for side, other in ((c.lhs, c.rhs), (c.rhs, c.lhs)):
+                try:
+                    k_ = other.const() if hasattr(other, "const") else None
+                except Exception:
+                    k_ = None
+                if k_ is not None and 0 < abs(float(k_)) <= 1e-3 and hasattr(side, "const") and side.const() is None:
+                    gates.append((str(side)[:40], str(other)[:40], 0.0, abs(float(k_))))
+                    return (c.op in (">", ">=")) == (side is c.lhs)
+            return False if c.op in ("<=", "<") else None
+        return None
     it = Interp(prog, oracle=oracle)
     q0, q1, q2 = free_quat("qa"), free_quat("qb"), free_quat("qc")
     dt = P.sym("dt")
@@ -220,7 +231,7 @@ def angvel(chk, prog):
     wide = [g for g in gates if (g[2] or 0) > 1e-12 or (g[3] or 0) > 1e-12]
     if wide:
         g = wide[0]
-        why = "np.isclose(%s, %s) (rtol=%g, atol=%g) between consecutive samples decides the result: every rotation step smaller than the tolerance is treated as `no motion`" % g
+        why = "a tolerance / threshold test of `%s` against `%s` (rtol=%g, atol or threshold=%g) between consecutive samples decides the result: every rotation step smaller than it is treated as `no motion`" % g
         chk.record("ANGVEL.gate", f.ref, "no tolerance gate between consecutive samples", verdict="VIOLATION", detail=why)
         chk.finding("ANGVEL.gate", QUAT, f.qname, "tolerance gate on consecutive samples", why, line=f.node.lineno)
     else:
